@@ -86,7 +86,61 @@ with must_true (f : formula) : bool :=
   | _ => false
   end.
 
-Definition guard_excludes_online (f : formula) : bool := must_false f.
+(* A complete check for formulas without FUnknown and with few atoms: try every assignment
+   of the atoms that occur (online fixed to true).  Atoms with the same number are the same
+   condition evaluated once, or a condition the translator found stable; see gen_sinks.py. *)
+Fixpoint atoms_in (f : formula) : list nat :=
+  match f with
+  | FNot g => atoms_in g
+  | FAnd g h | FOr g h => atoms_in g ++ atoms_in h
+  | FAtom n => [n]
+  | _ => []
+  end.
+
+Fixpoint has_unknown (f : formula) : bool :=
+  match f with
+  | FNot g => has_unknown g
+  | FAnd g h | FOr g h => has_unknown g || has_unknown h
+  | FUnknown => true
+  | _ => false
+  end.
+
+(* two-valued evaluation; only meaningful when has_unknown f = false *)
+Fixpoint eval2 (online : bool) (atoms : nat -> bool) (f : formula) : bool :=
+  match f with
+  | FTrue => true
+  | FOnline => online
+  | FNot g => negb (eval2 online atoms g)
+  | FAnd g h => eval2 online atoms g && eval2 online atoms h
+  | FOr g h => eval2 online atoms g || eval2 online atoms h
+  | FAtom n => atoms n
+  | FUnknown => false
+  end.
+
+Fixpoint dedup (l : list nat) : list nat :=
+  match l with
+  | [] => []
+  | x :: r => if existsb (Nat.eqb x) r then dedup r else x :: dedup r
+  end.
+
+Fixpoint lookup (asg : list (nat * bool)) (n : nat) : bool :=
+  match asg with
+  | [] => false
+  | (k, v) :: r => if Nat.eqb n k then v else lookup r n
+  end.
+
+Fixpoint assignments (l : list nat) : list (list (nat * bool)) :=
+  match l with
+  | [] => [[]]
+  | a :: r => map (cons (a, true)) (assignments r) ++ map (cons (a, false)) (assignments r)
+  end.
+
+Definition sat_excludes (f : formula) : bool :=
+  negb (has_unknown f)
+  && Nat.leb (length (dedup (atoms_in f))) 12
+  && forallb (fun asg => negb (eval2 true (lookup asg) f)) (assignments (dedup (atoms_in f))).
+
+Definition guard_excludes_online (f : formula) : bool := must_false f || sat_excludes f.
 
 Inductive sink_kind :=
 | KPrint | KExec | KEval | KCompile | KInput | KExit | KUrl | KOpen | KSystem | KImport | KSympy.
